@@ -44,7 +44,7 @@ execute_into steps, each strict or lazy, on one of two trees, running either a '
 the model's current image: new nodes stamped with the step number, new/re-created edges, new/equal/conflicting attributes on \
 existing and new nodes and edges, executed once or once per pass_statement match) or a generated program that receives existing \
 graph nodes as globals; a step may be cancelled at poll k. After every step the observed graph is checked against the previous \
-image (nothing lost, numbering continues, edges strictly ascending) and, for uncancelled touch steps, against the model's exact \
+image (nothing lost, numbering continues, no two edges with the same source and sink) and, for uncancelled touch steps, against the model's exact \
 prediction (Ok with exactly the predicted graph, or an error when a conflicting value was assigned). Non-trivial = at least one \
 step touches a pre-existing element; distinct = hash of (pre-population, step programs, modes, cancellation points).",
         distinct_key: "histories",
@@ -968,8 +968,8 @@ fn invariants(before: &CGraph, after: &CGraph, step_no: u32, duplicate_attr_repo
             }
         }
         for w in n.edges.windows(2) {
-            if w[0].0 >= w[1].0 {
-                return Some(("edges-not-a-set", format!("edges of node {} are not strictly ascending by sink: {} then {}", i, w[0].0, w[1].0)));
+            if w[0].0 == w[1].0 {
+                return Some(("edges-not-a-set", format!("node {} has two edges to node {}", i, w[0].0)));
             }
         }
         if let Some(CVal::Int(g)) = n.attrs.get("gen") {
